@@ -231,6 +231,10 @@ def run_job(job: Job, builder: Builder, work: str):
             # e.g. "ERROR" when the solver ran out of memory: never success, never vacuity
             res.setdefault("other_status", []).append([p["id"], st])
             continue
+        if d.startswith("WITNESS?:"):
+            if st == "FAILURE":
+                res["witness_ok"].append(d[9:].strip())
+            continue
         if d.startswith("WITNESS:"):
             (res["witness_ok"] if st == "FAILURE" else res["witness_vacuous"]).append(d[8:].strip())
             continue
@@ -256,7 +260,7 @@ def run_job(job: Job, builder: Builder, work: str):
             res["findings_hit"].append({"key": d[8:].strip(), "id": p["id"], "loc": p["loc"]})
             continue
         res["failed"].append({"id": p["id"], "desc": d, "loc": p["loc"], "func": p["func"]})
-    res["obligations"] = len([p for p in parsed["props"] if not p["desc"].startswith("WITNESS:")])
+    res["obligations"] = len([p for p in parsed["props"] if not p["desc"].startswith("WITNESS")])
     res["obligations_unsat"] = n_ok
     if res.get("other_status") or parsed["status"] not in ("success", "failure"):
         res["verdict"] = "not_decided"; res["detail"] = f"cbmc status {parsed['status']}; undecided obligations: {len(res.get('other_status', []))} (solver error / out of memory)"
@@ -460,7 +464,8 @@ def run_property(pid, tier, njobs, only=None, keep=False):
             "violations": len(violations) + len(unconfirmed),
         }
         os.makedirs(os.path.join(VERIF, "evidence"), exist_ok=True)
-        with open(os.path.join(VERIF, "evidence", f"{pid}.json"), "w") as f:
+        # a partial (--only) run never overwrites the property's evidence record
+        with open(os.path.join(VERIF, "evidence", f"{pid}.partial.json" if only else f"{pid}.json"), "w") as f:
             json.dump(ev, f, indent=1)
         print(f"[{pid}] tier={tier} jobs={len(results)} unsat={len([1 for _, r in results if r['verdict']=='unsat'])} "
               f"sat={len(violations)+len(unconfirmed)} undecided={len(undecided)} broken={len(broken)} "
